@@ -365,8 +365,10 @@ theorem deleteObjectsPlan_allowed (op : Op) (b : Bytes) (hb : b ∈ writeBuckets
   induction ks with
   | nil =>
     intro acc paths ha hp
-    simp only [deleteObjectsPlan, Plan.ok]
-    refine forall_append ha ?_
+    simp only [deleteObjectsPlan]
+    refine forall_withPath ha fun bp hbp => ?_
+    have h0 : P e enc op ⟨.read, .path bp⟩ := L_bucket hr (bw hb) hbp
+    refine forall_append (forall_append ha (by touch_list; exact h0)) ?_
     intro t ht
     simp only [List.mem_map] at ht
     obtain ⟨p, hpm, rfl⟩ := ht
